@@ -111,6 +111,8 @@ func (r ReqD) Gallina() string {
 		e := "ECtxCanceled"
 		if r.ExtKind == "Deadline" {
 			e = "ECtxDeadline"
+		} else if r.ExtKind == "AsyncCancel" {
+			e = "EExecCanceled"
 		}
 		ext = fmt.Sprintf("(Some (%d, %s))", r.ExtT, e)
 	}
